@@ -104,13 +104,14 @@ pub fn panic_kind(msg: &str) -> String {
 /// Runs a call into the crate; a panic becomes a violation `panic:<what>:<kind>`.
 pub fn guard<T>(what: &str, f: impl FnOnce() -> T) -> V<T> {
     IN_SUT.with(|c| *c.borrow_mut() += 1);
+    exec::new_call_epoch();
     let r = catch_unwind(AssertUnwindSafe(f));
     IN_SUT.with(|c| *c.borrow_mut() -= 1);
     match r {
         Ok(v) => Ok(v),
         Err(p) => {
             let msg = take_panic_message(p);
-            Err(Violation::new(format!("panic:{what}:{}", panic_kind(&msg)), format!("{what} panicked: {msg}")))
+            Err(Violation::new(format!("panic:{}", panic_kind(&msg)), format!("{what} panicked: {msg}")))
         }
     }
 }
